@@ -56,6 +56,7 @@ type evalResult struct {
 
 type childRequest struct {
 	Spec irgen.SchemaSpec
+	Lang string // "" = direct layer (FromAST), else a context configuration
 	Dump bool
 }
 
@@ -168,8 +169,8 @@ var cntMu sync.Mutex
 
 // evalInChild re-executes this binary for one case so that a fatal error
 // (stack overflow) kills the child only.
-func evalInChild(spec irgen.SchemaSpec, dump bool) evalResult {
-	req, _ := json.Marshal(childRequest{Spec: spec, Dump: dump})
+func evalInChild(spec irgen.SchemaSpec, lang string, dump bool) evalResult {
+	req, _ := json.Marshal(childRequest{Spec: spec, Lang: lang, Dump: dump})
 	ctx, cancel := context.WithTimeout(context.Background(), 10*time.Minute)
 	defer cancel()
 	cmd := exec.CommandContext(ctx, os.Args[0], "--c16-child")
@@ -200,6 +201,14 @@ func evalInChild(spec irgen.SchemaSpec, dump bool) evalResult {
 	if msg == "" {
 		vx.Fatalf("child for %s failed without a Go crash report: %v\n%s", witness(spec), err, short(es, 2000))
 	}
+	if lang != "" {
+		// a fatal crash inside the pipeline (a compiler pass recursing on a cyclic alias…) is C04/C06's subject
+		res := evalResult{Counters: map[string]int{"context:fatal-not-judged (C04/C06) @ " + lang: 1}}
+		if dump {
+			res.Real = short(es, 3000)
+		}
+		return res
+	}
 	res := evalResult{Counters: map[string]int{"clause:crash": 1}}
 	res.Findings = append(res.Findings, finding{
 		Kind: "crash: " + msg + " in " + dominantCogFrame(es),
@@ -219,7 +228,7 @@ func short(s string, n int) string {
 	return s
 }
 
-func evaluate(spec irgen.SchemaSpec, dump bool) evalResult {
+func evaluate(spec irgen.SchemaSpec, lang string, dump bool) evalResult {
 	cntMu.Lock()
 	transitions++
 	cntMu.Unlock()
@@ -227,9 +236,16 @@ func evaluate(spec irgen.SchemaSpec, dump bool) evalResult {
 		cntMu.Lock()
 		childRuns++
 		cntMu.Unlock()
-		return evalInChild(spec, dump)
+		return evalInChild(spec, lang, dump)
 	}
-	return evalInProcess(spec, dump)
+	return evalLayer(spec, lang, dump)
+}
+
+func evalLayer(spec irgen.SchemaSpec, lang string, dump bool) evalResult {
+	if lang == "" {
+		return evalInProcess(spec, dump)
+	}
+	return evalContext(spec, lang, dump)
 }
 
 func childMain() {
@@ -239,7 +255,7 @@ func childMain() {
 		fmt.Fprintln(os.Stderr, "c16-child: bad request:", err)
 		os.Exit(3)
 	}
-	res := evalInProcess(req.Spec, req.Dump)
+	res := evalLayer(req.Spec, req.Lang, req.Dump)
 	b, _ := json.Marshal(res)
 	os.Stdout.Write(b)
 	os.Exit(0)
@@ -250,11 +266,23 @@ func childMain() {
 
 type testCase struct {
 	family string
+	lang   string // "" = direct layer, else the context configuration the schemas go through
 	spec   irgen.SchemaSpec
+}
+
+// id is the canonical identity of a case: the layer and the schema set.
+func (tc testCase) id() string { return caseID(tc.lang, tc.spec) }
+
+func caseID(lang string, spec irgen.SchemaSpec) string {
+	if lang == "" {
+		return witness(spec)
+	}
+	return "ctx[" + lang + "] " + witness(spec)
 }
 
 type detail struct {
 	Family string           `json:"family"`
+	Lang   string           `json:"lang,omitempty"`
 	Spec   irgen.SchemaSpec `json:"spec"`
 }
 
@@ -303,9 +331,9 @@ func main() {
 		}
 		var parents []string
 		for _, red := range reductions(tc.spec) {
-			parents = append(parents, witness(red))
+			parents = append(parents, caseID(tc.lang, red))
 		}
-		w := witness(tc.spec)
+		w := tc.id()
 		seen := map[string]bool{}
 		for _, f := range res.Findings {
 			if seen[f.Kind] {
@@ -313,11 +341,11 @@ func main() {
 			}
 			seen[f.Kind] = true
 			r.Fail(vx.Failure{Kind: f.Kind, Witness: w, Size: tc.spec.Size(), Parents: parents, What: f.What,
-				Detail: detail{Family: tc.family, Spec: tc.spec}})
+				Detail: detail{Family: tc.family, Lang: tc.lang, Spec: tc.spec}})
 		}
 	}
 	evalMemo := func(tc testCase) *evalResult {
-		w := witness(tc.spec)
+		w := tc.id()
 		mu.Lock()
 		m := memos[w]
 		if m == nil {
@@ -326,7 +354,7 @@ func main() {
 		}
 		mu.Unlock()
 		m.once.Do(func() {
-			m.res = evaluate(tc.spec, false)
+			m.res = evaluate(tc.spec, tc.lang, false)
 			record(tc, m.res)
 		})
 		return &m.res
@@ -355,7 +383,7 @@ func main() {
 	{
 		seen := map[string]bool{}
 		for _, tc := range cases {
-			w := witness(tc.spec)
+			w := tc.id()
 			if seen[w] {
 				continue
 			}
@@ -402,7 +430,7 @@ func main() {
 				if len(open) == 0 {
 					break
 				}
-				rr := evalMemo(testCase{family: "reduction", spec: red})
+				rr := evalMemo(testCase{family: "reduction", lang: tc.lang, spec: red})
 				for _, f := range rr.Findings {
 					delete(open, f.Kind)
 				}
@@ -416,7 +444,7 @@ func main() {
 	var samples []any
 	for _, i := range []int{0, len(todo) / 7, 2 * len(todo) / 7, 3 * len(todo) / 7, 4 * len(todo) / 7, 5 * len(todo) / 7, 6 * len(todo) / 7, len(todo) - 1} {
 		if i >= 0 && i < len(todo) {
-			samples = append(samples, map[string]any{"family": todo[i].family, "schemas": witness(todo[i].spec)})
+			samples = append(samples, map[string]any{"family": todo[i].family, "case": todo[i].id()})
 		}
 	}
 	var famList []string
@@ -452,14 +480,18 @@ func replay(r *vx.Run) {
 	if err := json.Unmarshal(raw, &d); err != nil || len(d.Spec.Pkgs) == 0 {
 		vx.Fatalf("replay file has no schema spec in detail: %v", err)
 	}
-	if w := witness(d.Spec); w != wit {
+	if w := caseID(d.Lang, d.Spec); w != wit {
 		vx.Fatalf("replay: spec in detail renders as %q, witness says %q", w, wit)
 	}
 	fmt.Println("schemas:", wit)
-	res := evaluate(d.Spec, true)
+	res := evaluate(d.Spec, d.Lang, true)
 	fmt.Println("--- model (Appendix A.2) ---")
 	fmt.Println(res.Model)
-	fmt.Println("--- real: (&ast.BuilderGenerator{}).FromAST ---")
+	if d.Lang == "" {
+		fmt.Println("--- real: (&ast.BuilderGenerator{}).FromAST ---")
+	} else {
+		fmt.Println("--- model above is derived from the schemas of the returned context; real: Builders of codegen.Pipeline.ContextForLanguage(" + d.Lang + ") ---")
+	}
 	fmt.Println(res.Real)
 	fmt.Println("--- comparison ---")
 	same := false
